@@ -308,6 +308,8 @@ CAT = [
     datetime.datetime(2020, 1, 1, 0, 0, 0, 1), datetime.datetime(2020, 1, 1, 5, 30, tzinfo=datetime.timezone(datetime.timedelta(hours=5, minutes=30))),
     datetime.datetime(2020, 1, 2, tzinfo=datetime.timezone(datetime.timedelta(hours=-8))),
     [], [1], [[1]], {}, {"a": 1}, {"a": [1]}, [None], {"a": None},
+    # dictionaries whose keys sort differently as raw strings and as rendered JSON text ('k' < 'k!' but '"k!"' < '"k"')
+    {"k": 1, "k!": 2}, {"name": 1, "name 2": 2}, {'a"b': 1, "a": 2, "a b": 3}, {"\u00e9": 1, "e": 2, "z": 3},
 ]
 
 
@@ -545,3 +547,48 @@ def aliasing(shape: int, form: int, store: str):
         finally:
             prog.close()
             sb.close()
+
+
+@obligation(
+    "C04.partial_isolation",
+    covers=("child-kwargs", "child-args", "chain"),
+    split={"form": [0, 1, 2]},
+    bounds="p = g2.partial(...) is used, then q = p.partial(...) is derived from it (keyword / positional / both, two levels), then p is "
+           "used again: p's key, effective kwargs and reference are what they were before q existed; symbolic bound values",
+    variables="data: v, w (scalars); choice: form",
+    stubs=STUBS,
+    budget_s={"quick": 170, "thorough": 400},
+    data_vars=2, choice_vars=1,
+)
+def partial_isolation(v: ScalarNF, w: int, form: int):
+    _dom(v)
+    _dom(w)
+    with hashing_stubs():
+        if form == 0:
+            cover("child-kwargs")
+            p = G2.partial(x=v)
+            call_p = lambda: FunctionReferenceWithArguments(p.fn_reference(), (), {"y": 0})  # noqa: E731
+            derive = lambda: p.partial(y=w)  # noqa: E731
+            want = {"x": v, "y": 0}
+        elif form == 1:
+            cover("child-args")
+            p = G2.partial(v)
+            call_p = lambda: FunctionReferenceWithArguments(p.fn_reference(), (0,), {})  # noqa: E731
+            derive = lambda: p.partial(w)  # noqa: E731
+            want = {"x": v, "y": 0}
+        else:
+            cover("chain")
+            p = G2.partial(x=v)
+            call_p = lambda: FunctionReferenceWithArguments(p.fn_reference(), (), {"y": 0})  # noqa: E731
+            derive = lambda: p.partial(y=w).partial(z=w)  # noqa: E731
+            want = {"x": v, "y": 0}
+        before = call_p()
+        k0, e0 = _key(before), dict(before.effective_kwargs)
+        q = derive()
+        qa = FunctionReferenceWithArguments(q.fn_reference(), (), {}) if form != 1 else FunctionReferenceWithArguments(q.fn_reference(), (), {})
+        after = call_p()
+        check("deriving-a-partial-does-not-change-the-parent's-key", _key(after) == k0, lambda: (k0, _key(after)))
+        check("parent's-effective-kwargs-unchanged", same(after.effective_kwargs, e0) and set(after.effective_kwargs) == set(want),
+              lambda: (after.effective_kwargs, e0))
+        check("child-carries-both-bindings", same(qa.effective_kwargs.get("x"), v) and same(qa.effective_kwargs.get("y"), w),
+              lambda: qa.effective_kwargs)
